@@ -28,7 +28,7 @@ Definition fp_lines (f : fp) : N * N :=
 Definition must_content (b : bfacts) (fps : list fp) : bool :=
   existsb (fun f =>
     if fp_a f =? 0 then (0 <? fp_d f) && (bf_sl b <? fp_t f) && (fp_t f <=? bf_ef b)
-    else (fp_t f <? bf_ef b) && (bf_sl b <? fp_t f + fp_a f - 1)) fps.
+    else (fp_t f <? bf_ef b) && (bf_sl b <? fp_t f + fp_a f - 1) && (bf_sl b + 1 <? bf_ef b)) fps.
 
 (* nothing touches or adjoins the block's tag lines or anything between them *)
 Definition far_from (b : bfacts) (fps : list fp) : bool :=
@@ -141,3 +141,13 @@ Definition check_drift (c : rcase) (co : cobs) (lo : lobs) (ro : obs)
 Definition mkfp t a d src : fp := {| fp_t := t; fp_a := a; fp_d := d; fp_src := src |}.
 Definition mkbfacts f ts sf sl ef el ex : bfacts :=
   {| bf_file := f; bf_ts := ts; bf_sf := sf; bf_sl := sl; bf_ef := ef; bf_el := el; bf_expect := ex |}.
+
+(* debugging aid: the ingredients of the verdict *)
+Definition debug_drift (c : rcase) (co : cobs) (lo : lobs) (ro : obs)
+                       (scanned : list str) (facts : list bfacts) (all : list (str * list fp))
+                       (f3 : bool) :=
+  let is_scanned := fun f => existsb (str_eqb f) scanned in
+  (changes_agree (model_changes c) co, list_agrees_c (model_context c) lo, run_agrees (model_run c) ro,
+   match lo with LObsList l => map (fun b => (bf_ts b, block_ok (is_scanned (bf_file b)) (fps_of (bf_file b) all) l b,
+                                              known_f2 b (fps_of (bf_file b) all))) facts | _ => [] end,
+   spec_affects lo ro).
